@@ -138,6 +138,10 @@ package transaction
 //@   ensures result1 == nil && tx.Type() != params.BoxTx ==> result0 <= tx.GasLimit()
 //@   ensures result1 == nil ==> int(*gp) == old(int(*gp)) - int(result0)
 //@   ensures result1 != nil ==> int(*gp) <= old(int(*gp))
+// the property's own wording, kept last so that nothing else leans on it: the payer's net charge, (gasLimit - rest) x price, is
+// gasUsed x price.  It FAILS for a box (known finding D12): the box's gasUsed also counts the gas of its sub-transactions, whose
+// own payers have paid it already, and the block fee is computed from that gasUsed -- the miner is paid for that gas twice
+//@   ensures result1 == nil ==> int(result0) == int(tx.GasLimit()) - gh("hx", 3)
 //@   modifies allbut(TxProcessor, types.Transaction, types.txdata, types.Header, []*types.Transaction, params, "bigval")
 //@   nopanic
 
